@@ -392,6 +392,10 @@ def run(ctx: Context) -> None:
         ctx.check('R15.4', v_ is not None and set(wflow.alternatives(v_)) == {('param', key_)}, f"the caller's `{key_}` handle or path goes to the writer's `{key_}`", wsf, writers_[0],
                   construct=f"{key_}={norm_text(v_) if v_ is not None else 'not passed'}")
 
+    # the projection file is named after the target where there is one and the caller named none
+    from . import infra as _infra154
+    _infra154.none_default_discipline(ctx, 'R15.4', [f"{GEO}.write_shapefile"])
+
     # an opened handle handed to write_shapefile is used as it is (typing.IO is an annotation, not a class real files derive from)
     mo = p.functions.get(f"{GEO}._maybe_open")
     ctx.need('R15.4', mo is not None and mo.params, "_maybe_open exists", wg)
@@ -443,6 +447,7 @@ from ..variants import V  # noqa: E402
 
 _G = 'src/emsarray/operations/geometry.py'
 VARIANTS = [
+    V('C15', 'projection-file-named-after-no-target', 'src/emsarray/operations/geometry.py', "            if target is not None:\n                prj = os.path.splitext(target)[0] + '.prj'", "            if target is None:\n                prj = os.path.splitext(target)[0] + '.prj'", 'R15.4'),
     V('C15', 'geojson-wind-off-by-one', _G, "            'index': dataset.ems.wind_index(i),\n        })", "            'index': dataset.ems.wind_index(i + 1),\n        })", 'R15.2'),
     V('C15', 'geojson-compacted', _G, "        for i, polygon in enumerate(dataset.ems.polygons)\n        if polygon is not None\n    ))", "        for i, polygon in enumerate(dataset.ems.polygons[dataset.ems.mask])\n        if polygon is not None\n    ))", 'R15.1'),
     V('C15', 'geojson-start-1', _G, "        for i, polygon in enumerate(dataset.ems.polygons)\n        if polygon is not None\n    ))", "        for i, polygon in enumerate(dataset.ems.polygons, 1)\n        if polygon is not None\n    ))", 'R15.1'),
